@@ -24,13 +24,13 @@ func init() {
 		ID:          "C08",
 		Level:       "model_checking",
 		Technique:   "small-scope exhaustive enumeration of Bind messages (parameter tuples x parameter-format sections x result-format sections x declared columns/OIDs) run through Parse/Describe/Bind/Describe/Execute/Sync on a real server, compared with the protocol's format rule and an independent value decoder",
-		Rule:        "parameter count 0-3, values from {NULL,\"\",\"a\",\"\\x00\",\"1\"}, format sections {none, one code, one per item} over {0,1}, 0-3 int4 result columns, declared parameter OID lists of length 0-3; plus a typed family (oid, format, encoding, expected value); distinct = distinct Bind configurations",
+		Rule:        "parameter count 0-3, values from {NULL,\"\",\"a\",\"\\x00\",\"1\"}, format sections {none, one code, one per item} over {0,1}, 0-3 int4 result columns, declared parameter OID lists of length 0-3, each portal executed twice; wide statements of 255, 256, 32767, 32768, 40000 and 65535 parameters; plus a typed family (oid, format, encoding, expected value); distinct = distinct Bind configurations",
 		Assumptions: []string{"inadmissible code counts (1 < n < items) are outside the quantifier", "result columns are int4 so that text and binary encodings differ"},
 		Enumerate:   c08Enumerate,
 		Bounds: func(tier string) map[string]any {
 			return map[string]any{"max_params": 3, "max_columns": 3, "value_alphabet": []string{"NULL", "", "a", "\\x00", "1"}, "declared_oid_lists": c08OidLists(tier)}
 		},
-		RequiredOutcomes: []string{"with-null", "no-null", "typed", "rebind", "two-portals"},
+		RequiredOutcomes: []string{"with-null", "no-null", "typed", "rebind", "two-portals", "wide"},
 	})
 }
 
@@ -75,6 +75,7 @@ type c08Case struct {
 	Cols   int
 	RF     []int16
 	OIDs   []uint32
+	Limit  int // message size limit of the server (0 = harness default)
 }
 
 type c08Obs struct {
@@ -141,7 +142,11 @@ func c08Run(c c08Case) explore.Result {
 			return w.Complete("SELECT 1")
 		}, opts...)), nil
 	}
-	one, err := harness.StartOne(parse)
+	var sopts []wire.OptionFn
+	if c.Limit > 0 {
+		sopts = append(sopts, wire.MessageBufferSize(c.Limit))
+	}
+	one, err := harness.StartOne(parse, sopts...)
 	if err != nil {
 		res.Engine = err.Error()
 		return res
@@ -247,6 +252,32 @@ func c08Run(c c08Case) explore.Result {
 	if !sameStrings(wantS, obs.scans) {
 		res.Fail("parameter-decode", fmt.Sprintf("Scan(text) expected %v, got %v", wantS, obs.scans))
 	}
+	if len(res.Violations) > 0 && len(c.Params) > 16 {
+		for i := range res.Violations {
+			if len(res.Violations[i].Detail) > 600 {
+				res.Violations[i].Detail = res.Violations[i].Detail[:300] + " ... " + res.Violations[i].Detail[len(res.Violations[i].Detail)-200:]
+			}
+		}
+	}
+	first := ms
+	// the portal stays open: executing it again runs the statement with the very same parameters
+	*obs = c08Obs{}
+	ms2, ok2 := step("second Execute of the same portal", pgproto.Execute("p", 0))
+	if !ok2 {
+		return res
+	}
+	if obs.calls > 0 {
+		if !sameStrings(wantP, obs.params) {
+			res.Fail("parameter-values", fmt.Sprintf("second Execute of the open portal: client bound %v, handler received %v", wantP, obs.params))
+		}
+		if fmt.Sprint(wantF) != fmt.Sprint(obs.fmts) && len(wantF)+len(obs.fmts) > 0 {
+			res.Fail("parameter-formats", fmt.Sprintf("second Execute of the open portal: formats %v expected, handler saw %v", wantF, obs.fmts))
+		}
+		if k := pgproto.Kinds(ms2); k == execWant && c.Cols > 0 && fmt.Sprint(ms2[0].Row) != fmt.Sprint(first[0].Row) {
+			res.Fail("result-format-used", fmt.Sprintf("second Execute of the open portal: DataRow %v differs from the first one %v", ms2[0], first[0]))
+		}
+	}
+	ms = first
 	if c.Cols > 0 {
 		row := ms[0].Row
 		if len(row) != c.Cols {
@@ -573,6 +604,36 @@ func c08Enumerate(tier string, emit explore.Emit) {
 						Run:  func() explore.Result { return c08RunRebind(cols, rounds) }})
 				}
 			}
+		}
+	}
+	// wide statements: counts around the int16 / uint16 boundaries of the count words
+	for _, n := range []int{255, 256, 32767, 32768, 40000, 65535} {
+		for _, pf := range [][]int16{nil, {1}} {
+			ol := make([]uint32, n)
+			params := make([][]byte, n)
+			for i := range ol {
+				ol[i] = []uint32{25, 23, 0, 16, 20}[i%5]
+				params[i] = []byte(fmt.Sprintf("v%d", i))
+				if i%7 == 3 {
+					params[i] = nil
+				}
+			}
+			c := c08Case{Params: params, PF: pf, Cols: 1, OIDs: ol, Limit: 4 << 20}
+			emit(explore.Case{Family: "wide", Size: 100,
+				Desc: func() any {
+					return map[string]any{"parameters": n, "param_formats": pf, "declared_oids": "25,23,0,16,20 repeating", "values": "v<i>, every 7th NULL"}
+				},
+				Run: func() explore.Result {
+					r := c08Run(c)
+					r.Key = fmt.Sprint("wide", n, pf)
+					r.Outcome = "wide"
+					for i := range r.Violations {
+						if d := r.Violations[i].Detail; len(d) > 700 {
+							r.Violations[i].Detail = fmt.Sprintf("(%d parameters) ", n) + d[:300] + " ... " + d[len(d)-200:]
+						}
+					}
+					return r
+				}})
 		}
 	}
 	oidLists := c08OidLists(tier)
